@@ -128,6 +128,7 @@ def exhaustive_small(rec, modkey, p, quick, mc=None):
     triples = [(x, y, z) for x in els for y in els for z in els]
     objs = {t: tuple(CG.mk_el(cls, v) for v in t) for t in triples}
     n = 0
+    judged0 = rec.monitors["M-curve.add"]
     for t1 in triples:
         a = objs[t1]
         call(c.double, a)
@@ -146,7 +147,8 @@ def exhaustive_small(rec, modkey, p, quick, mc=None):
         call(c.is_on_curve, objs[rng.choice(triples)], CG.mk_el(cls, rng.choice(els)))
     tag = "exhaustive:GF(%d)" % p if mc is None else "exhaustive:GF(%d^2)" % p
     rec.classes[tag] += n
-    rec.count_distinct(n)
+    # distinct cases = pairs the oracle actually judged (pairs with equal x and unrelated y have no affine sum and are skipped)
+    rec.count_distinct(rec.monitors["M-curve.add"] - judged0)
     rec.exhaustive_space("%s add on every ordered pair of projective triples over %s (all scalings, all z = 0 representatives); double/neg on every triple" % (modkey, tag[11:]), n)
 
 
@@ -214,6 +216,7 @@ def secp_part(rec, quick, do_exh):
             trip = [(x, y, z) for x in range(p) for y in range(p) for z in range(p) if not (z == 0 and y != 0)]
             if p <= (11 if quick else 23):
                 cnt = 0
+                j0 = rec.monitors["M-secp.jadd"]
                 fin = [t for t in trip if t[1] and t[2]]
                 for t1 in trip:
                     rd = call(s.jacobian_double, t1)
@@ -225,15 +228,16 @@ def secp_part(rec, quick, do_exh):
                         call(s.jacobian_add, t1, t2)
                         cnt += 1
                 rec.classes["secp:exhaustive"] += cnt
-                rec.count_distinct(cnt)
+                rec.count_distinct(rec.monitors["M-secp.jadd"] - j0)
                 rec.exhaustive_space("secp256k1 jacobian_add on every ordered pair of Jacobian triples over GF(%d) with A=%d (y=0 identity markers included)" % (p, A_), cnt)
             cnt = 0
+            j0 = rec.monitors["M-secp.jadd"]
             for _ in range(1500 if quick else 20000):
                 call(s.jacobian_add, rng.choice(trip), rng.choice(trip))
                 call(s.jacobian_double, rng.choice(trip))
                 cnt += 1
             rec.classes["secp:A!=0"] += cnt
-            rec.count_distinct(cnt)
+            rec.count_distinct(min(cnt, rec.monitors["M-secp.jadd"] - j0) // 2)      # random draws from a small space: count conservatively
     finally:
         for k, v in saved.items():
             setattr(s, k, v)
